@@ -47,15 +47,15 @@ def run(cx):
     mc_init = cx.func(RELM, "MCallerHttp.__init__", "R17c")
     get_conn = cx.func(RELM, "MCallerHttp.get_conn", "R17f")
 
-    _r17a(cx, clone, hc_init, base_init)
-    _self_wraps(cx, repo)
-    _r17b(cx, repo, do_req, ra_init, ra_args)
-    _r17c(cx, repo, base, base_init, clone, mc_init)
-    _r17d(cx, repo, do_req, base_init)
-    _r17e(cx, repo)
-    _r17f(cx, get_conn)
-    _r17g(cx, do_req)
-    _r17h(cx, do_req)
+    cx.guard(_r17a, cx, clone, hc_init, base_init)
+    cx.guard(_self_wraps, cx, repo)
+    cx.guard(_r17b, cx, repo, do_req, ra_init, ra_args)
+    cx.guard(_r17c, cx, repo, base, base_init, clone, mc_init)
+    cx.guard(_r17d, cx, repo, do_req, base_init)
+    cx.guard(_r17e, cx, repo)
+    cx.guard(_r17f, cx, get_conn)
+    cx.guard(_r17g, cx, do_req)
+    cx.guard(_r17h, cx, do_req)
 
 
 # ------------------------------------------------------------------------------------------------ R17a
